@@ -18,7 +18,9 @@ RULE = ('every wrapper exported by cvxopt.lapack x typecode (d, z) x order / sha
         'call whose outputs are pushed through the defining equation (residual / reconstruction / orthonormality / '
         'ordering), whose buffers are compared bytewise outside the documented output footprint, and whose '
         'exception class is compared with the exact (integer arithmetic) classification of the input; non-trivial = '
-        'order >= 1 and the call reached LAPACK (returned a result or raised ArithmeticError)')
+        'order >= 1 and the call reached LAPACK (returned a result or raised ArithmeticError).  Call histories (explicit-state, depth 2 + a displacing '
+        'prefix): for every wrapper all ordered pairs (a, b) of configurations - order 3 / 4 x optional outputs given / omitted x every flag '
+        'keyword given each value or omitted; b observed right after a must equal b observed in a process that has called nothing')
 ASSUME = ['floating-point results are accepted within 1e-9 relative to the magnitudes involved (observed < 1e-12)',
           'an exactly singular / semidefinite input must raise ArithmeticError only when the elimination is exact in '
           'binary floating point (order <= 2 with entries 0, +-1, +-2, +-4 times 1 or i, or hand-verified fixed '
